@@ -41,6 +41,14 @@ def work(ctx, tier):
                                p_breaker=1.0, ncalls=(1, 6), placements=(k % 6 == 0), falsy_objects=True, poll_kinds=True)
         if k % 8 == 0:
             sc["cfg"]["no_retry"] = True
+            if k % 16 == 0:
+                # a shutdown flag that goes up WHILE the single attempt is in flight: the predicate answered False before the attempt and
+                # would answer True after it - the attempt's own outcome is still what the call ended with
+                sc["poll"] = True
+                for c in sc["calls"]:
+                    c["abort_at"] = None
+                    c["abort_after_op"] = 1
+                ctx.inc("retryless_scenarios_with_a_flag_raised_during_the_attempt")
         if k % 2 == 0:
             # generous thresholds: several calls are admitted before the circuit opens
             sc["cfg"]["breaker"]["threshold"] = rng.randint(2, 5)
